@@ -452,6 +452,20 @@ def rule_stored(rep, fx):
                 gp = [k for k, v in names.items() if v == 'writer_guid']
                 if gp and _unref(rc[2][1]) == ('param', gp[0]):
                     maps.append((bb, 'term'))
+    # the direct form: if let Some(wp) = self.matched_writer(writer_guid) { tc.mark_reliably_received_before(writer_guid, wp.all_ackable_before()) }
+    gp = [k for k, v in names.items() if v == 'writer_guid']
+    for bb, t in m.calls():
+        if call_matches(t, 'TopicCache::mark_reliably_received_before') and gp:
+            g = _unref(og.of_operand(t['args'][1], bb, 'term'))
+            x = og.of_operand(t['args'][2], bb, 'term')
+            if g == ('param', gp[0]) and x[0] == 'call' and x[1].endswith('all_ackable_before') and \
+                    term_has(x, lambda y: y[0] == 'call' and y[1].endswith('matched_writer') and _unref(y[2][1]) == ('param', gp[0])):
+                found_e = [(s_, t_) for s_, t_, cond, lab in edges if lab == 'Some' and cond[0] == 'discr' and cond[1][0] == 'call' and cond[1][1].endswith('matched_writer')]
+                # reached on every path on which the proxy exists
+                if found_e and not any(P.can_reach((t_, 0), (r, 'term'), avoid_pos=[(bb, 'term')]) for s_, t_ in found_e for r in m.return_blocks()):
+                    marks.append('direct')
+                    look = [(lb, 'term') for lb, lt in m.calls() if call_matches(lt, 'Reader::matched_writer')]
+                    maps.extend(look)
     okm = bool(stateful) and bool(marks) and bool(maps)
     for s_, t_ in stateful:
         for r in m.return_blocks():
